@@ -255,6 +255,11 @@ class USBInTransferManager(Elaboratable):
                         read_stream_ended  .eq(0)
                     ]
 
+                    # If a PID-sequence reset arrives in this very cycle, it must not be lost to the
+                    # toggle above: the packet we've just readied is the first of the new sequence.
+                    with m.If(self.reset_sequence):
+                        m.d.usb += self.data_pid.eq(self.start_with_data1)
+
 
             # WAIT_TO_SEND -- we now have at least a buffer full of data to send; we'll
             # need to wait for an IN token to send it.
